@@ -9,8 +9,11 @@
 (*  {"ev":"between","tid","cid","c","a","b","st","res":[..],"raised":""}                            *)
 (*  {"ev":"annot","tid","cid","c","blocks":[[bs,be]..],"st","m","res":[..],"raised":""}            *)
 (*  {"ev":"mol","tid","cid","c","reads":[{"mate":1|2,"rev":bool,"blocks":[[bs,be]..]}..],"stranded":"none"|"false"|"true", *)
-(*   "m","res":[..],"genes":[..],"raised":""}   FeatureAnnotatedMolecule.annotate(method=m) on one fragment:    *)
-(*   res = features behind the keys of .hits, genes = features behind .genes after set_intron_exon_features()   *)
+(*   "m","cap","auto","res":[..],"genes":[name..],"exons":[feature..],"introns":[name..],"junctions":[name..],  *)
+(*   "gn":[name..],"locs":[[name,s,e,strand]..],"spliced","raised":""}                                          *)
+(*   FeatureAnnotatedMolecule on one fragment: annotate(method=m) + set_intron_exon_features() (auto: both from  *)
+(*   the constructor); res = features behind the keys of .hits; genes/exons/introns/junctions/gn = the sets the *)
+(*   class derives; locs = feature_locations when capture_locations (cap)                                       *)
 (*  an event with a field "soft":"<reason>" is an observation of a call variant outside the documented API       *)
 (*  (findFeaturesAt(optim=<anything but bdbnb/nb/optim>)): a failing verdict is reported as @@NOTE soft_..., never rejected *)
 (* `clean[cid]` = no add since the last explicit sort(): findFeaturesBetween and                   *)
@@ -63,8 +66,21 @@ MolTruth(F, e) == UNION { TrueAnnotBases(F, Pairs(e.reads[i].blocks), MolStrand(
 MolV(b, e) == IF Len(e.reads) = 0 \/ \E i \in DOMAIN e.reads : e.reads[i].mate \notin {1, 2} THEN "Inv_C16_Mol_malformed" ELSE
               LET t(F) == MolTruth(F, e)
                   v == Classify(b, e, t, "Inv_C16_MolAnnotate")
+                  T == t(OnContig(b, e.c))
+                  (* what set_intron_exon_features derives from the hits (driver's data scheme: gene = feature name, *)
+                  (* "h" and minus-strand "exon7" features are introns, unnamed ones have an ignored type, every      *)
+                  (* other feature is an exon of its own of transcript t1)                                           *)
+                  IsIntron(f) == f[3] = "h" \/ (f[3] = "exon7" /\ f[4] = "-")
+                  IsOther(f) == f[3] = ""                                  \* type CDS: ignored by the class
+                  EX == { f \in T : ~IsIntron(f) /\ ~IsOther(f) }
+                  IN_ == { f \in T : IsIntron(f) }
+                  Names(S) == { f[3] : f \in S }
               IN IF v # "ok" THEN v
-                 ELSE IF SeqSet(e.genes) # t(OnContig(b, e.c)) THEN "Inv_C16_MolGenes" ELSE "ok"
+                 ELSE IF SeqSet(e.genes) # Names(EX \cup IN_) \/ SeqSet(e.exons) # EX \/ SeqSet(e.introns) # Names(IN_)
+                         \/ SeqSet(e.gn) # Names(EX) THEN "Inv_C16_MolGenes"
+                 ELSE IF SeqSet(e.junctions) # { g \in Names(EX) : Cardinality({ f \in EX : f[3] = g }) >= 2 } THEN "Inv_C16_MolJunctions"
+                 ELSE IF e.cap /\ SeqSet(e.locs) # { << f[3], f[1], f[2], f[4] >> : f \in T } THEN "Inv_C16_MolLocations"
+                 ELSE "ok"
 
 QueryPre(e) == CASE e.ev = "between" -> e.a <= e.b
                  [] e.ev = "annot" -> \A k \in DOMAIN e.blocks : e.blocks[k][1] < e.blocks[k][2]
